@@ -1582,6 +1582,12 @@ impl<Front: SocketHandler + std::fmt::Debug, L: ListenerHandler + L7ListenerHand
                 .backend_streams
                 .get(&token)
                 .map_or_else(Vec::new, |ids| ids.to_owned());
+            if linked_ids.is_empty() {
+                // An idle connection kept for reuse: no stream waits for this
+                // backend, so the session and its exchanges with other backends
+                // go on. The next use of the connection arms the timer again.
+                return StateResult::Continue;
+            }
             for stream_id in linked_ids {
                 // This stream is linked to the backend that timedout
                 // End it on the backend first, while `stream.back` still holds what the
